@@ -85,6 +85,10 @@ func c19Gen(class string, seed uint64, tier string) *vfScenario {
 		names = append(names, names[0]) // a duplicate
 	}
 	sc.Ops = []vfOp{{K: "config", S: strings.Join(names, ",")}}
+	if class != "server-rs" && rng.IntN(4) == 0 {
+		// a read-only server: the modifying extensions are refused, the others - and the answer to unknown names - stay
+		sc.Cfg["readonly"] = 1
+	}
 	if rng.IntN(3) == 0 {
 		// the configuration changes again while the session is open (after its handshake): what was advertised
 		// to this session must still be served
@@ -422,7 +426,21 @@ func c19Server(r *vfRun) {
 				return
 			}
 		}
-		if _, adv := configured["posix-rename@openssh.com"]; adv {
+		ro := sc.cfg("readonly", 0) != 0
+		if ro {
+			// posix-rename and hardlink modify: a read-only server answers permission denied, advertised or not, and does nothing
+			_, e1 := os.Lstat(s.root + "/new1")
+			_, e2 := os.Lstat(s.root + "/new0")
+			for _, i := range []int{3, 5} {
+				_, adv := configured[map[int]string{3: "posix-rename@openssh.com", 5: "hardlink@openssh.com"}[i]]
+				if rep[i].Type != wtStatus || (adv && rep[i].Code != 3) || (!adv && rep[i].Code != 3 && rep[i].Code != wsUnsupported) || e1 == nil || e2 == nil {
+					r.fail("C19/read-only-extension", "readonly", "read-only server: request %v was answered %v (new1: %v, new0: %v), want permission denied and no effect", s.wc.reqs[i], rep[i], e1, e2)
+					return
+				}
+			}
+			sim.count("probe.read_only_server")
+		}
+		if _, adv := configured["posix-rename@openssh.com"]; adv && !ro {
 			_, e1 := os.Lstat(s.root + "/new1")
 			_, e2 := os.Lstat(s.root + "/f1")
 			if rep[3].Type != wtStatus || rep[3].Code != wsOK || e1 != nil || e2 == nil {
@@ -430,7 +448,7 @@ func c19Server(r *vfRun) {
 				return
 			}
 		}
-		if _, adv := configured["hardlink@openssh.com"]; adv {
+		if _, adv := configured["hardlink@openssh.com"]; adv && !ro {
 			a, e1 := os.Stat(s.root + "/new0")
 			b, _ := os.Stat(s.root + "/f0")
 			if rep[5].Type != wtStatus || rep[5].Code != wsOK || e1 != nil || !os.SameFile(a, b) {
@@ -440,7 +458,7 @@ func c19Server(r *vfRun) {
 		}
 		sim.count("probe.advertised_extensions_served")
 	}
-	if kind == 0 {
+	if kind == 0 && sc.cfg("readonly", 0) == 0 {
 		if _, adv := configured["statvfs@openssh.com"]; adv {
 			if rep[tail].Type != wtStatus || rep[tail].Code != wsOK || rep[tail+1].Type != wtExtReply || rep[tail+2].Type != wtAttrs {
 				r.fail("C19/advertised-extension-not-served", "statvfs-pipelined", "MKDIR nd, statvfs nd, STAT nd sent back-to-back were answered %v, %v, %v: the extended request did not see the directory made by the command before it", rep[tail], rep[tail+1], rep[tail+2])
